@@ -7,6 +7,7 @@ import (
 	"path/filepath"
 	"runtime/debug"
 	"sort"
+	"strings"
 	"time"
 )
 
@@ -23,14 +24,58 @@ func Exec(w World, c *Case, generate bool, verbose bool) (out *Outcome, trace []
 	x.Verbose = verbose
 	defer func() {
 		if r := recover(); r != nil {
+			stack := string(debug.Stack())
 			out = x.Finish()
-			out.Infra = fmt.Sprintf("harness panic: %v\n%s", r, debug.Stack())
-			out.Violation = nil
 			trace = x.Trace
+			// A panic raised inside the code under test while the world was driving it with legal
+			// operations means the node (or the library) died: that is a violation of whatever
+			// property the run was checking, not harness trouble. A panic raised by the harness
+			// itself (or one it re-threw deliberately with a "verif:"/"harness" message) stays infra.
+			if fn := sutPanicOrigin(stack); fn != "" && !strings.Contains(fmt.Sprint(r), "harness") {
+				if out.Violation == nil {
+					out.Violation = &Violation{Prop: c.Prop, Class: "code-under-test-panicked", Sig: fn,
+						Detail: fmt.Sprintf("panic in %s: %v", fn, firstLine(fmt.Sprint(r))), Step: x.pos - 1}
+				}
+				return
+			}
+			out.Infra = fmt.Sprintf("harness panic: %v\n%s", r, stack)
+			out.Violation = nil
 		}
 	}()
 	w.Run(x)
 	return x.Finish(), x.Trace
+}
+
+func firstLine(s string) string {
+	if i := strings.IndexByte(s, '\n'); i >= 0 {
+		return s[:i]
+	}
+	return s
+}
+
+// sutPanicOrigin returns the function in which a recovered panic was raised if that function
+// belongs to aergo proper (not to the simulator), else "".
+func sutPanicOrigin(stack string) string {
+	lines := strings.Split(stack, "\n")
+	for i, l := range lines {
+		if strings.HasPrefix(l, "panic(") {
+			// the frame after panic() (skipping runtime helpers such as goPanicIndex) raised it
+			for j := i + 2; j < len(lines); j += 2 {
+				fn := strings.TrimSpace(lines[j])
+				if strings.HasPrefix(fn, "runtime.") || fn == "" {
+					continue
+				}
+				if k := strings.LastIndexByte(fn, '('); k > 0 {
+					fn = fn[:k]
+				}
+				if strings.HasPrefix(fn, "github.com/aergoio/aergo/v2/") && !strings.Contains(fn, "/zz_verif/") {
+					return strings.TrimPrefix(fn, "github.com/aergoio/aergo/v2/")
+				}
+				return ""
+			}
+		}
+	}
+	return ""
 }
 
 // ReplayFile is the on-disk form of a reported violation.
